@@ -509,6 +509,10 @@ class Unit:
                 item.setdefault("letinit", {})[a] = b
             elif name == "iterloop":
                 item.setdefault("iterloops", []).extend(full.split())
+            elif name == "rlimit":
+                item["rlimit"] = int(full.strip())
+            elif name == "byval":
+                item.setdefault("byval", []).extend(full.split())
             elif name == "callfn":
                 a, b = [x.strip() for x in full.split("=>")]
                 item.setdefault("callfns", []).append((a, b))
@@ -883,6 +887,9 @@ class Gen:
                 for c in cs:
                     self.reg(c)
                     pieces.append(("        " + c.text + ",\n", ("clause", c.id)))
+        if it.get("rlimit") and not it["external"]:
+            # solver budget for this function (Verus' default is 10); recorded per function in the evidence
+            ed.insert(fn["s"], f"#[verifier::rlimit({it['rlimit']})]\n", ("glue",))
         if it["external"]:
             ed.insert(fn["s"], "#[verifier::external_body]\n", ("trusted", f"external_body {it['name']}"))
         if "no_decreases" in it["opts"]:
@@ -1104,6 +1111,11 @@ class Gen:
                         S = T(kid(e, "expr"))
                     elif e["k"] == "MethodCall" and e["a"]["method"] == "iter":
                         S = T(kid(e, "receiver"))
+                    elif e["k"] == "Path" and e["a"]["path"] in it.get("byval", []):
+                        # R2v (`@byval V`): `for x in V` consuming a Vec whose items the body only reads -> index loop over references
+                        # (a body that needs ownership no longer compiles: tool error, never a pass)
+                        S = T(e)
+                        self.fired("R2v")
                     else:
                         raise Inconclusive(f"unsupported construct: for-loop iterator at {src.rel}:{src.line_of(n['s'])}")
                     x_pat = T(p)
@@ -1261,6 +1273,26 @@ class Gen:
                 if not args or args[0]["k"] != "Lit" or not args[0]["a"]["lit"].startswith('"'):
                     raise Inconclusive(f"unsupported construct: format! without a plain string literal at {src.rel}:{src.line_of(n['s'])}")
                 name, call_args = self.format_helper(args[0]["a"]["lit"], [T(a) for a in args[1:]], src, n)
+                if args[1:] and call_args == ["&" + T(a) for a in args[1:]]:
+                    # positional str arguments in order: only the glue between the argument expressions is replaced, so that
+                    # other rules still apply inside them
+                    ed.replace(n["s"], args[1]["s"], f"{name}(&", ("rule", "R8'"))
+                    for a, b in zip(args[1:], args[2:]):
+                        ed.replace(a["e"], b["s"], ", &", ("rule", "R8'"))
+                    ed.replace(args[-1]["e"], n["e"], ")", ("rule", "R8'"))
+                else:
+                    ed.replace(n["s"], n["e"], f"{name}({', '.join(call_args)})", ("rule", "R8'"))
+                self.fired("R8'")
+            elif n["k"] == "Macro" and n["a"]["mac"] in ("formatln", "crate::formatln"):
+                # scrut's own `formatln!(LIT, args)` = format!("{}\n", format!(LIT, args)); `formatln!(E)` = format!("{}\n", E) (src/newline.rs)
+                args = kids(n, "macarg")
+                if args and args[0]["k"] == "Lit" and args[0]["a"]["lit"].startswith('"') and len(args) > 1:
+                    lit, rest = args[0]["a"]["lit"][:-1] + '\\n"', [T(a) for a in args[1:]]
+                elif len(args) == 1:
+                    lit, rest = '"{}\\n"', [T(args[0])]
+                else:
+                    raise Inconclusive(f"unsupported construct: formatln! shape at {src.rel}:{src.line_of(n['s'])}")
+                name, call_args = self.format_helper(lit, [re.sub(r"^&\s*", "", a) for a in rest], src, n)
                 ed.replace(n["s"], n["e"], f"{name}({', '.join(call_args)})", ("rule", "R8'"))
                 self.fired("R8'")
 
@@ -1467,6 +1499,14 @@ class Gen:
                     and kid(n, "receiver")["a"]["lit"] == '" "' and len(kids(n, "arg")) == 1:
                 A = kids(n, "arg")[0]
                 ed.replace(n["s"], A["s"], "__spaces(", ("rule", "R40"))
+                ed.replace(A["e"], n["e"], ")", ("rule", "R40"))
+                self.fired("R40")
+            elif n["k"] == "MethodCall" and n["a"]["method"] == "repeat" and kid(n, "receiver")["k"] == "Lit" \
+                    and re.match(r'^"([^"\\]|\\.)"$', kid(n, "receiver")["a"]["lit"]) and len(kids(n, "arg")) == 1:
+                # a one-character literal repeated: `"`".repeat(N)` -> __repeat_char('`', N)
+                A = kids(n, "arg")[0]
+                ch = kid(n, "receiver")["a"]["lit"][1:-1]
+                ed.replace(n["s"], A["s"], "__repeat_char('" + ("\\'" if ch == "'" else ch) + "', ", ("rule", "R40"))
                 ed.replace(A["e"], n["e"], ")", ("rule", "R40"))
                 self.fired("R40")
 
@@ -1785,12 +1825,17 @@ class Gen:
             if w[2] == "exit" and kind == "windows_position":
                 return ("placeholder", f"/*@@loop{idx}:exit@@*/")
             if w[2] == "begin":
-                if kind in ("chars_map_join", "chars_index", "windows_position"):
+                if kind in ("chars_map_join", "chars_index", "windows_position", "any", "all"):
                     return ("placeholder", f"/*@@loop{idx}:begin@@*/")
                 b = kid(n, "body")
                 if b is None:
                     raise Inconclusive(f"lost anchor: loop {idx} has no block body")
                 return b["s"] + 1
+            if w[2] == "end":
+                b = kid(n, "body")
+                if b is None or b["k"] != "Block":
+                    raise Inconclusive(f"lost anchor: loop {idx} has no block body")
+                return b["e"] - 1
             st = n
             while st is not None and st["r"] != "stmt":
                 st = st["p"]
@@ -1907,10 +1952,10 @@ class Gen:
         for t, o in pieces:
             ed.insert(P["s"], t, o)
         if kind == "any":
-            ed.insert(P["s"], f"{{\n            let {x} = &{S}[{iv}];\n            if ", ("rule", "R6"))
+            ed.insert(P["s"], f"{{\n            let {x} = &{S}[{iv}]; /*@@loop{idx}:begin@@*/\n            if ", ("rule", "R6"))
             ed.replace(P["e"], n["e"], f" {{ return true; }}\n            {iv} += 1;\n        }}\n        false", ("rule", "R6"))
         else:
-            ed.insert(P["s"], f"{{\n            let {x} = &{S}[{iv}];\n            if !(", ("rule", "R6"))
+            ed.insert(P["s"], f"{{\n            let {x} = &{S}[{iv}]; /*@@loop{idx}:begin@@*/\n            if !(", ("rule", "R6"))
             ed.replace(P["e"], n["e"], f") {{ return false; }}\n            {iv} += 1;\n        }}\n        true", ("rule", "R6"))
         self.fired("R6")
 
